@@ -107,4 +107,62 @@ example : splitText [112, 48, 43, 112, 48, 120] = [[], [112, 48], [43], [112, 48
 /-- a plain string literal is one chunk, so a formal name inside it is never substituted -/
 example : splitText [97, 32, 34, 112, 48, 34, 32, 98] = [[], [97], [32], [34, 112, 48, 34], [32], [98]] := by decide
 
+
+/-! ## the error clauses of `resolve_text_macro_usage`, stated outright on the walker model (all tables, trees, depths ≤ 64) -/
+
+
+/-- **DefineNotFound carries the macro name**: a usage of a name that is not in the table is an error naming it -/
+theorem C05_undefined_named (C : Cfg) (fuel : Nat) (inp : Input) (s path : Bytes) (x : Tree) (d : Defines) (ii sc : Bool) (rd id : Nat)
+    (hrd : rd ≤ recursiveLimit) (h : d.get? (usageName C.K inp x) = none) :
+    resolveUsage C (fuel + 1) inp s path x d ii sc rd id = .error (.defineNotFound (usageName C.K inp x)) := by
+  have : ¬ rd > recursiveLimit := by omega
+  simp only [resolveUsage, this, if_false]
+  split
+  · rfl
+  · rename_i heq; rw [h] at heq; first | done | cases heq
+  · rename_i heq; rw [h] at heq; first | done | cases heq
+
+/-- a macro that is in the table without a definition (`-D NAME` style, `Some(None)`) expands to nothing -/
+theorem C05_bodyless_table_entry (C : Cfg) (fuel : Nat) (inp : Input) (s path : Bytes) (x : Tree) (d : Defines) (ii sc : Bool) (rd id : Nat)
+    (hrd : rd ≤ recursiveLimit) (h : d.get? (usageName C.K inp x) = some none) :
+    resolveUsage C (fuel + 1) inp s path x d ii sc rd id = .ok none := by
+  have : ¬ rd > recursiveLimit := by omega
+  simp only [resolveUsage, this, if_false]
+  split
+  · rename_i heq; rw [h] at heq; first | done | cases heq
+  · rfl
+  · rename_i heq; rw [h] at heq; first | done | cases heq
+
+/-- **DefineNoArgs carries the macro name**: a macro with formals used without an argument list -/
+theorem C05_no_args_named (C : Cfg) (fuel : Nat) (inp : Input) (s path : Bytes) (x : Tree) (d : Defines) (ii sc : Bool) (rd id : Nat)
+    (def_ : Define) (hrd : rd ≤ recursiveLimit) (h : d.get? (usageName C.K inp x) = some (some def_))
+    (hf : def_.args.isEmpty = false) (hn : (x.kids.drop 2).isEmpty = true) :
+    resolveUsage C (fuel + 1) inp s path x d ii sc rd id = .error (.defineNoArgs def_.ident) := by
+  have : ¬ rd > recursiveLimit := by omega
+  simp only [resolveUsage, this, if_false]
+  split
+  · rename_i heq; rw [h] at heq; first | done | cases heq
+  · rename_i heq; rw [h] at heq; first | done | cases heq
+  · rename_i df heq
+    rw [h] at heq
+    have : df = def_ := (Option.some.inj (Option.some.inj heq)).symm
+    subst this
+    first | rfl | simp only [hf, hn, Bool.not_false, Bool.and_self, if_true]
+
+/-- a macro defined without body (`` `define X ``) and without formals expands to nothing -/
+theorem C05_define_without_body (C : Cfg) (fuel : Nat) (inp : Input) (s path : Bytes) (x : Tree) (d : Defines) (ii sc : Bool) (rd id : Nat)
+    (def_ : Define) (hrd : rd ≤ recursiveLimit) (h : d.get? (usageName C.K inp x) = some (some def_))
+    (hf : def_.args = []) (hb : def_.text = none) :
+    resolveUsage C (fuel + 1) inp s path x d ii sc rd id = .ok none := by
+  have : ¬ rd > recursiveLimit := by omega
+  simp only [resolveUsage, this, if_false]
+  split
+  · rename_i heq; rw [h] at heq; first | done | cases heq
+  · rename_i heq; rw [h] at heq; first | done | cases heq
+  · rename_i df heq
+    rw [h] at heq
+    have : df = def_ := (Option.some.inj (Option.some.inj heq)).symm
+    subst this
+    first | rfl | simp only [hf, hb, bindArgs, bindArgsFrom, List.isEmpty_nil, Bool.not_true, Bool.false_and, Bool.false_eq_true, if_false]
+
 end Sv
